@@ -71,6 +71,8 @@ def translate(row, sid, cfg=None):
                 p = 'X'
             out.append(f"dispatch {p} {r['b']} {r['e']} {r['res']}")
             out.append(f"oHist {r['b']} {lst(r['hist'])}")
+            if r['res'] == 'ok' and 'q' in r:
+                out.append(f"oAccepted {r['b']} {r['e']} {lst(r['q'])}")
             if r['res'] == 'ok' and not r['same']:
                 out.append('oIdentity dispatch-returned-another-object')
         elif k == 'take':
